@@ -1,0 +1,9 @@
+//go:build !verif
+
+package kafka
+
+// verifOn guards the /verif harness hooks; without the `verif` build tag it is the constant false,
+// so every `if verifOn { verifEvent(...) }` is eliminated at compile time.
+const verifOn = false
+
+func verifEvent(kind string, args ...interface{}) {}
